@@ -179,7 +179,17 @@ impl Scenario for Events {
                         if rng.bool() {
                             ops.push(TOp { t, op: Op::Byte { b } });
                         } else if faulty && rng.chance(1, 3) {
-                            ops.push(TOp { t, op: Op::Frame { sent: b, fault: WFault::Flip(1 << rng.below(11)), via: Via::Bit } });
+                            if rng.bool() {
+                                // frame damaged, keyboard resends
+                                ops.push(TOp { t, op: Op::Frame { sent: b, fault: WFault::Flip(1 << rng.below(11)), via: Via::Bit } });
+                            } else {
+                                // cable glitch mid-frame: the watchdog discards the partial word, keyboard resends
+                                ops.push(TOp { t, op: Op::Frame { sent: b, fault: WFault::Trunc(rng.range(1, 10) as u8), via: Via::Bit } });
+                                for _ in 0..rng.below(2) {
+                                    ops.push(TOp { t, op: Op::Pev });
+                                }
+                                ops.push(TOp { t, op: Op::Clear });
+                            }
                             ops.push(TOp { t, op: Op::Frame { sent: b, fault: WFault::None, via: Via::Bit } });
                         } else {
                             ops.push(TOp { t, op: Op::Frame { sent: b, fault: WFault::None, via: if rng.bool() { Via::Bit } else { Via::Word } } });
@@ -237,7 +247,15 @@ impl Scenario for Events {
             }
             if !held.is_empty() && rng.chance(8, 100) {
                 let k = *held.last().unwrap();
-                for _ in 0..rng.range(1, 3) {
+                // usually a few repeats; now and then somebody leans on the key for half a minute
+                let reps = if !rng.chance(1, 200) {
+                    rng.range(1, 3)
+                } else if rng.bool() {
+                    rng.range(250, 262) // right around the mark where 8-bit bookkeeping would wrap
+                } else {
+                    rng.range(258, 700)
+                };
+                for _ in 0..reps {
                     ops.push(TOp { t, op: Op::Ev { key: k, st: 1 } });
                     t += rng.range(30, 500) * MS;
                 }
